@@ -85,6 +85,7 @@ var Mutants = map[string][]Mutant{
 		{"Close retags one end only", "path.go", `\t\tp\.d\[len\(p\.d\)-1\] = CloseCmd\n\t\tp\.d\[len\(p\.d\)-cmdLen\(LineToCmd\)\] = CloseCmd\n`, "\t\tp.d[len(p.d)-1] = CloseCmd\n", "E2.retag"},
 	},
 	"C11": {
+		{"ToSVG forgets the pen after an arc", "path.go", `\t\t\tlarge, sweep := toArcFlags\(p\.d\[i\+4\]\)\n\t\t\tx, y = p\.d\[i\+5\], p\.d\[i\+6\]\n\t\t\tsLarge := "0"\n\t\t\tif large \{\n\t\t\t\tsLarge = "1"\n\t\t\t\}\n\t\t\tsSweep := "0"\n\t\t\tif sweep \{\n\t\t\t\tsSweep = "1"\n\t\t\t\}\n\t\t\tif 90\.0 <= rot`, "\t\t\tlarge, sweep := toArcFlags(p.d[i+4])\n\t\t\tsLarge := \"0\"\n\t\t\tif large {\n\t\t\t\tsLarge = \"1\"\n\t\t\t}\n\t\t\tsSweep := \"0\"\n\t\t\tif sweep {\n\t\t\t\tsSweep = \"1\"\n\t\t\t}\n\t\t\tif 90.0 <= rot", "E2.pen"},
 		{"ParseSVGPath loses its guard", "path.go", `path\[0\] == ',' \|\| len\(path\) <= i \|\| path\[i\] < 'A'`, `path[0] == ',' || path[i] < 'A'`, "E4.index-guard"},
 		{"drawShape panics on <text> without x", "svg.go", `\tcase "text":\n\t\tsvg\.state\.textX`, "\tcase \"text\":\n\t\tif attrs[\"x\"] == \"\" {\n\t\t\tpanic(\"text without x\")\n\t\t}\n\t\tsvg.state.textX", "E4.panic-reach"},
 		{"number table larger than the buffer", "path.go", `\t\t'A': 7,\n`, "\t\t'A': 8,\n", "E4.table-bound"},
@@ -107,17 +108,24 @@ var Mutants = map[string][]Mutant{
 		{"stroke keeps even-odd star", "renderers/pdf/pdf.go", `\t\t\tif closed \{\n\t\t\t\tr\.w\.Write\(\[\]byte\(" s"\)\)\n\t\t\t\} else \{\n\t\t\t\tr\.w\.Write\(\[\]byte\(" S"\)\)\n\t\t\t\}\n\t\t\} else if style\.HasFill\(\) && style\.HasStroke\(\) \{`, "\t\t\tif closed {\n\t\t\t\tr.w.Write([]byte(\" s\"))\n\t\t\t} else {\n\t\t\t\tr.w.Write([]byte(\" S\"))\n\t\t\t}\n\t\t\tif style.FillRule == canvas.EvenOdd {\n\t\t\t\tr.w.Write([]byte(\"*\"))\n\t\t\t}\n\t\t} else if style.HasFill() && style.HasStroke() {", "E5.grammar"},
 	},
 	"C14": {
+		{"stroke scanned with the fill rule", "renderers/rasterizer/rasterizer.go", `\t\tr\.scanner\.SetWinding\(true\)\n`, ``, "E6.winding-mode"},
 		{"rasterizer transforms the caller's path", "renderers/rasterizer/rasterizer.go", `fill = path\.Copy\(\)\.Transform\(m\)`, `fill = path.Transform(m)`, "E1.render-pure"},
 		{"gradient stops converted in place", "colors.go", `\tgradient := \*g\n\tgradient\.Stops = stops\n\treturn &gradient\n\}\n\n// At returns the color at position \(x,y\)\.\nfunc \(g \*LinearGradient\)`, "\tgradient := *g\n\tgradient.Stops = stops\n\tg.Stops[0] = stops[0]\n\treturn &gradient\n}\n\n// At returns the color at position (x,y).\nfunc (g *LinearGradient)", "E1.render-pure"},
 		{"scanner line not flipped", "path.go", `\t\tcase LineToCmd:\n\t\t\tras\.Line\(fixedPoint26_6\(p\.d\[i\+1\]\*dpmm, dy-p\.d\[i\+2\]\*dpmm\)\)`, "\t\tcase LineToCmd:\n\t\t\tras.Line(fixedPoint26_6(p.d[i+1]*dpmm, p.d[i+2]*dpmm))", "E6.scanner-site"},
 		{"rasterizer ignores the fill rule", "renderers/rasterizer/rasterizer.go", `\t\tr\.scanner\.SetWinding\(style\.FillRule != canvas\.EvenOdd\)\n`, ``, "E6.style-field"},
 	},
 	"C15": {
+		{"SetDashes re-uses the saved backing array", "canvas.go", `c\.Style\.Dashes = dashes`, `c.Style.Dashes = append(c.Style.Dashes[:0], dashes...)`, "E1.ctx-setter-alias"},
 		{"Rotate pre-multiplies", "canvas.go", `c\.view = c\.view\.Mul\(Identity\.Rotate\(rot\)\)`, `c.view = Identity.Rotate(rot).Mul(c.view)`, "E11.view-postmul"},
 		{"Pop restores the style only", "canvas.go", `c\.ContextState = c\.stack\[len\(c\.stack\)-1\]`, `c.Style = c.stack[len(c.stack)-1].Style`, "E11.ctx-stack"},
 		{"DrawText compensates the wrong quadrant", "canvas.go", `(\tm := c\.CoordSystemView\(\)\.Mul\(c\.view\)\.Translate\(coord\.X, coord\.Y\)\n\n\t// keep textbox origin at the top-left\n\tif c\.coordSystem == CartesianIII \|\| c\.coordSystem == )CartesianIV`, "${1}CartesianII", "E11.draw-matrix"},
 		{"Fill restores into the wrong paint", "canvas.go", `\tc\.DrawPath\(0\.0, 0\.0, c\.path\)\n\tc\.Style\.Stroke = stroke\n`, "\tc.DrawPath(0.0, 0.0, c.path)\n\tc.Style.Fill = stroke\n", "E11.ctx-restore"},
 		{"setter writes the stack", "canvas.go", `func \(c \*Context\) SetStrokeWidth\(width float64\) \{\n`, "func (c *Context) SetStrokeWidth(width float64) {\n\tc.stack = nil\n", "E11.ctx-setter"},
+	},
+	"C16": {
+		{"line ascent and descent exchanged", "text.go", `\t\t\t\tascent = math\.Max\(ascent, spanAscent\)\n\t\t\t\tdescent = math\.Max\(descent, spanDescent\)\n\t\t\t\tbottom = math\.Max\(bottom, spanBottom\)\n\t\t\t\} else \{\n\t\t\t\tfor _, obj`, "\t\t\t\tascent = math.Max(ascent, spanDescent)\n\t\t\t\tdescent = math.Max(descent, spanAscent)\n\t\t\t\tbottom = math.Max(bottom, spanBottom)\n\t\t\t} else {\n\t\t\t\tfor _, obj", "E3.line-heights"},
+		{"line bottom takes the minimum", "text.go", `\t\t\t\t\tbottom = math\.Max\(bottom, spanDescent\+lineSpacing\)`, "\t\t\t\t\tbottom = math.Min(bottom, spanDescent+lineSpacing)", "E3.line-heights"},
+		{"Text.Heights uses the first line's top", "text.go", `\t_, ascent, _, _ := firstLine\.Heights\(t\.WritingMode\)`, "\tascent, _, _, _ := firstLine.Heights(t.WritingMode)", "E3.line-heights"},
 	},
 	"C17": {
 		{"Linebreak looks at items[b-1] unguarded", "text/linebreak.go", `if 0 < b && lb\.items\[b-1\]\.Type == BoxType`, `if lb.items[b-1].Type == BoxType`, "E4.neighbour-guard"},
@@ -129,6 +137,7 @@ var Mutants = map[string][]Mutant{
 		{"vertical fonts written as horizontal", "renderers/pdf/writer.go", `w\.writeFonts\(w\.fontsV, true\)`, `w.writeFonts(w.fontsV, false)`, "E5.fontmaps"},
 	},
 	"C19": {
+		{"CSS selector buffer re-used", "svg.go", `selectors = selectors\[:0:0\]`, `selectors = selectors[:0]`, "E11.reuse-after-escape"},
 		{"pica is 1/12 inch", "svg.go", `return num \* 96\.0 / 6\.0`, `return num * 96.0 / 12.0`, "E11.svg-dimension"},
 		{"importer keeps y up", "svg.go", `svg\.ctx\.SetCoordSystem\(CartesianIV\)`, `svg.ctx.SetCoordSystem(CartesianI)`, "E11.svg-size"},
 		{"explicit width used as millimetres", "svg.go", `width = svg\.parseDimension\(attrWidth, 1\.0\) \* 25\.4 / 96\.0`, `width = svg.parseDimension(attrWidth, 1.0)`, "E11.svg-size"},
